@@ -61,6 +61,7 @@ func (w *world) opTermCfgDel(gw string) (string, string) {
 }
 
 func (w *world) opCheck(node, sid, cid, status string) (string, string) {
+	w.noteNodeCase(node)
 	idx := w.nextIdx()
 	req := structs.RegisterRequest{Datacenter: "dc1", Node: node, SkipNodeUpdate: true,
 		Check: &structs.HealthCheck{Node: node, CheckID: typesCheckID(cid), Name: cid, Status: status, ServiceID: sid}}
@@ -96,6 +97,9 @@ func nodeService(svc *svcSpec) *structs.NodeService {
 // opTxn: several catalog operations in ONE transaction (one Raft index, one batch of events whose
 // order inside catalog_events.go comes from Go maps)
 func (w *world) opTxn(node string, sets []*svcSpec, dels []string) (string, string) {
+	// a service row written under another spelling of the node name than the node row has: register
+	// events carry the node row's spelling, deregister events the service row's (same mechanism)
+	w.noteNodeCase(node)
 	idx := w.nextIdx()
 	var ops structs.TxnOps
 	var desc []string
@@ -206,9 +210,12 @@ func (s *sched) wideWrite() {
 	default:
 		if s.cfgCase {
 			if r.Chance(70) {
-				s.emit(w.opCfg(hx.Pick(r, []string{"web", "Web"}), r.Intn(3)))
+				// ONE spelling per schedule (subscribers use web AND Web): writing the same entry under two
+				// spellings replaces the row without a delete event for the old spelling — a further consul
+				// defect (notes/C11-round5.md, open: needs a known: line before it can be generated)
+				s.emit(w.opCfg(s.cfgName, r.Intn(3)))
 			} else {
-				s.emit(w.opCfgDel(hx.Pick(r, []string{"web", "Web"})))
+				s.emit(w.opCfgDel(s.cfgName))
 			}
 		} else {
 			s.emit(w.opKV())
@@ -222,6 +229,7 @@ func (s *sched) wideWrite() {
 func wideSchedule(run *hx.Run, r *hx.RNG, maxActs int, withRestore, nodeCase bool) {
 	s := beginWide(run, r.Chance(70))
 	s.cfgCase = true
+	s.cfgName = hx.Pick(r, []string{"web", "Web"})
 	if nodeCase {
 		s.nodes = []string{"n1", "N1", "n2"}
 		s.w.tag("wide:node-case")
